@@ -1769,7 +1769,7 @@ def _verify_feature_config(feature_config):
           feature_config.name, feature_config.pwl_calibration_input_keypoints))
   elif feature_config.monotonicity and feature_config.monotonicity != 'none':
     # Validate Categorical Calibration configuration.
-    if not np.iterable(feature_config.monotonicity):
+    if not isinstance(feature_config.monotonicity, (list, tuple)):
       raise ValueError('Monotonicity is not a list for feature {}: {}'.format(
           feature_config.name, feature_config.monotonicity))
     for i, t in enumerate(feature_config.monotonicity):
